@@ -31,7 +31,7 @@ def run_checks(root, checks, tier="quick"):
     ev = tempfile.mkdtemp(prefix="zmut-ev.", dir="/tmp")
     env["ZCHECK_EVIDENCE_DIR"] = ev
     env["ZCHECK_REPLAY_DIR"] = ev
-    env["ZCHECK_KEEP"] = "6"
+    env["ZCHECK_KEEP"] = "8"
     res = {}
     for c in checks:
         p = subprocess.run([os.path.join(VERIF, "check"), c, "--tier", tier], env=env, stdout=subprocess.PIPE,
